@@ -331,6 +331,12 @@ func (w *world) component(l label, nest int) templ.Component {
 		c = condClass(l.Args.Cond, w.classes[l.Args.K], w.classes[l.Args.T])
 	case "OnceWithBlock":
 		c = onceBlock(w.handles[l.Args.H], l.Args.H)
+	case "OnceNested":
+		inner := onceBlock(w.handles[l.Args.T], l.Args.T)
+		if nest != 0 {
+			inner = section(inner) // the use of the handle sits deeper inside the guarded content
+		}
+		c = onceNested(w.handles[l.Args.H], l.Args.H, inner)
 	case "OnceWithComponent":
 		c = onceFixed(w.handles[l.Args.H])
 	default:
